@@ -5,12 +5,12 @@
 package c17
 
 import (
-	"verif/harness/internal/c05"
 	"context"
 	"encoding/json"
 	"errors"
 	"fmt"
 	"time"
+	"verif/harness/internal/c05"
 
 	jsonrpc "github.com/filecoin-project/go-jsonrpc"
 
